@@ -31,6 +31,7 @@ import QV.Model.Density
 import QV.Lemmas.Basic
 import QV.Lemmas.Hilbert
 import QV.Lemmas.Density
+import QV.Props.C05
 
 namespace QV.Props
 namespace C02
@@ -451,6 +452,31 @@ theorem C02_unit_trace (am : PRBM ℝ n h a) :
     intro σ; simp [probability]
   simp_rw [h1]
   rw [← Finset.sum_div, ← C02_normalization, div_self hZ.ne']
+
+/-! ### C02.4s — the diagonal is the distribution the state SAMPLES FROM -/
+
+/-- **C02.4s** "its diagonal equals the unnormalised probabilities the model reports AND SAMPLES FROM":
+for every number of passes `k` and every `Z` (in particular `Z` = the trace), the diagonal of `rho`
+divided by `Z` is stationary for the law of the sampler `PurificationRBM.gibbs_steps` — the program
+`PRBM.gibbsSteps` that the harness replays against the real `DensityMatrix.sample` on scripted draws:
+`Σ_v (rho v v).1 / Z · law (gibbsSteps k v) w = (rho w w).1 / Z`, and the `k`-pass law is reversible
+with respect to it. -/
+theorem C02_diagonal_sampled (am ph : PRBM ℝ n h a) (Z : ℝ) (k : ℕ) (v w : Fin n → Bool) :
+    ∑ u : Fin n → Bool, (rho am ph (bits u) (bits u)).1 / Z * (am.gibbsSteps k u).law w
+        = (rho am ph (bits w) (bits w)).1 / Z
+    ∧ (rho am ph (bits v) (bits v)).1 / Z * (am.gibbsSteps k v).law w
+        = (rho am ph (bits w) (bits w)).1 / Z * (am.gibbsSteps k w).law v := by
+  have hd : ∀ u : Fin n → Bool, (rho am ph (bits u) (bits u)).1 / Z = C05.prbmPi am Z u := by
+    intro u
+    rw [(C02_diagonal am ph (bits u)).2]
+    have hb : (bits u : Fin n → ℝ) = bvec u := rfl
+    simp [C05.prbmPi, probability, hb]
+  simp only [hd]
+  refine ⟨?_, ?_⟩
+  · simpa [Matrix.vecMul, dotProduct, C05.C05_k_step_law_purif] using
+      congrFun (C05.C05_invariant_k_purif am Z k) w
+  · simp only [C05.C05_k_step_law_purif]
+    exact detailed_balance_pow _ _ (C05.C05_detailed_balance_purif am Z) k v w
 
 /-! ### C02.6 — call forms -/
 
